@@ -372,7 +372,7 @@ def run_match(prop, tier, seed, t0):
     d = lib.build_match(what, tier, seed, tuple(sorted(skip)))
     raw = os.path.join(work, 'out.ndjson')
     import subprocess
-    p = subprocess.run(['timeout', '900', os.path.join(d, 'drv_match'), raw], stdout=subprocess.PIPE, stderr=subprocess.STDOUT, text=True)
+    p = subprocess.run(['timeout', '1800', os.path.join(d, 'drv_match'), raw], stdout=subprocess.PIPE, stderr=subprocess.STDOUT, text=True)
     cat = {c['id']: c for c in json.load(open(os.path.join(d, 'catalogue.json')))}
     crashed = p.returncode != 0
     # merge catalogue into the recorded verdicts, split into chunks for parallel validation
@@ -469,7 +469,7 @@ def run_print(prop, tier, seed, t0):
     d = lib.build_print(tier)
     raw = os.path.join(work, 'out.ndjson')
     env = dict(os.environ); env.update(lib.SAN_ENV)
-    p = subprocess.run(['timeout', '300', os.path.join(d, 'drv_print'), raw], env=env, stdout=subprocess.PIPE, stderr=subprocess.STDOUT, text=True)
+    p = subprocess.run(['timeout', '900', os.path.join(d, 'drv_print'), raw], env=env, stdout=subprocess.PIPE, stderr=subprocess.STDOUT, text=True)
     cat = {c['id']: c for c in json.load(open(os.path.join(d, 'catalogue.json')))}
     nviol, out_lines = 0, []
     rp = os.path.join(lib.BUILD, 'replay'); os.makedirs(rp, exist_ok=True)
@@ -597,7 +597,7 @@ def run_coro(prop, tier, seed, t0):
             return dict(viol=[], events=0)
         script = os.path.join(work, 'c%d.script' % i); raw = os.path.join(work, 'c%d.raw' % i); norm = os.path.join(work, 'c%d.ndjson' % i)
         gen_scripts.write_script(script, chunks[i])
-        p = subprocess.run(['timeout', '900', os.path.join(d, 'drv_coro'), script, raw], env=env, stdout=subprocess.PIPE, stderr=subprocess.STDOUT, text=True)
+        p = subprocess.run(['timeout', '1800', os.path.join(d, 'drv_coro'), script, raw], env=env, stdout=subprocess.PIPE, stderr=subprocess.STDOUT, text=True)
         if p.returncode != 0:
             return dict(error='driver rc=%d %s' % (p.returncode, p.stdout[-400:]))
         n = _norm_coro(raw, norm)
@@ -671,7 +671,7 @@ def run_c09(prop, tier, seed, t0):
         return 1
     raw = os.path.join(work, 'out.ndjson')
     env = dict(os.environ); env.update(lib.SAN_ENV)
-    p = subprocess.run(['timeout', '300', os.path.join(d, 'drv_c09'), raw], env=env, stdout=subprocess.PIPE, stderr=subprocess.STDOUT, text=True)
+    p = subprocess.run(['timeout', '900', os.path.join(d, 'drv_c09'), raw], env=env, stdout=subprocess.PIPE, stderr=subprocess.STDOUT, text=True)
     cases = {c['id']: c for c in json.load(open(os.path.join(d, 'cases.json')))}
     if p.returncode != 0:
         path = os.path.join(rp, 'C09-crash.txt'); open(path, 'w').write('driver failed rc=%d\n%s\n' % (p.returncode, p.stdout[-4000:]))
@@ -833,7 +833,7 @@ def run_thread_terror(work):
     if p.returncode != 0:
         return dict(note='thread_terror does not build: ' + p.stdout[-300:])
     env = dict(os.environ); env.update(TSAN_ENV)
-    q = subprocess.run(['timeout', '600', exe], env=env, stdout=subprocess.PIPE, stderr=subprocess.STDOUT, text=True)
+    q = subprocess.run(['timeout', '1500', exe], env=env, stdout=subprocess.PIPE, stderr=subprocess.STDOUT, text=True)
     if q.returncode != 0:
         return dict(violated=True, output='thread_terror under ThreadSanitizer: exit %d\n%s' % (q.returncode, q.stdout[-6000:]))
     return dict(ok=True, output=q.stdout[-300:])
